@@ -292,3 +292,23 @@ package matcher
 //@   loop 1 invariant ex: grpEX(opts, nargs, D, V, HV, ENV, domOf(c.ExcludedOpts)) == grpEX(opts, args0, D, V, HV, ENV, EX0)
 //@   loop 1 invariant od: grpOD(opts, nargs, D, V, HV, ENV, domOf(c.ExcludedOpts), domOf(c.Opts)) == grpOD(opts, args0, D, V, HV, ENV, EX0, OD0)
 //@   loop 1 invariant ov: grpOV(opts, nargs, D, V, HV, ENV, domOf(c.ExcludedOpts), domOf(c.Opts), valOf(c.Opts)) == grpOV(opts, args0, D, V, HV, ENV, EX0, OD0, OV0)
+
+// --- ParseContext.Merge (C02): appends o's bindings to pc's, key by key, order preserved; nothing else moves --------
+//@ func (ParseContext).Merge
+//@   requires maps: pc.Args != nil && pc.Opts != nil && o.Args != nil && o.Opts != nil
+//@   requires distinct: pc.Args != pc.Opts && pc.Args != o.Args && pc.Args != o.Opts && pc.Opts != o.Args && pc.Opts != o.Opts && o.Args != o.Opts
+//@   ensures args: forall k *container.Container :: pc.Args[k] == ((k in o.Args) ? old(pc.Args[k]) ++ o.Args[k] : old(pc.Args[k])) &&
+//@       ((k in pc.Args) <==> (old(k in pc.Args) || (k in o.Args)))
+//@   ensures opts: forall k *container.Container :: pc.Opts[k] == ((k in o.Opts) ? old(pc.Opts[k]) ++ o.Opts[k] : old(pc.Opts[k])) &&
+//@       ((k in pc.Opts) <==> (old(k in pc.Opts) || (k in o.Opts)))
+//@   ensures source-untouched: domOf(o.Args) == old(domOf(o.Args)) && valOf(o.Args) == old(valOf(o.Args)) && domOf(o.Opts) == old(domOf(o.Opts)) && valOf(o.Opts) == old(valOf(o.Opts))
+//@   loop 1 invariant done: forall k *container.Container :: pc.Args[k] == (iterdone(k) ? old(pc.Args[k]) ++ o.Args[k] : old(pc.Args[k])) &&
+//@       ((k in pc.Args) <==> (old(k in pc.Args) || iterdone(k)))
+//@   loop 1 invariant sub: forall k *container.Container :: iterdone(k) ==> old(k in o.Args)
+//@   loop 1 invariant frame: frameMap(pc.Args)
+//@   loop 2 invariant args: forall k *container.Container :: pc.Args[k] == ((k in o.Args) ? old(pc.Args[k]) ++ o.Args[k] : old(pc.Args[k])) &&
+//@       ((k in pc.Args) <==> (old(k in pc.Args) || (k in o.Args)))
+//@   loop 2 invariant done: forall k *container.Container :: pc.Opts[k] == (iterdone(k) ? old(pc.Opts[k]) ++ o.Opts[k] : old(pc.Opts[k])) &&
+//@       ((k in pc.Opts) <==> (old(k in pc.Opts) || iterdone(k)))
+//@   loop 2 invariant sub: forall k *container.Container :: iterdone(k) ==> old(k in o.Opts)
+//@   loop 2 invariant frame: domOf(o.Args) == old(domOf(o.Args)) && valOf(o.Args) == old(valOf(o.Args)) && domOf(o.Opts) == old(domOf(o.Opts)) && valOf(o.Opts) == old(valOf(o.Opts))
